@@ -1,2 +1,13 @@
 import Gaftools.Props.TieA2
+import Gaftools.Props.TieA15
 #print axioms Gaftools.TieA.regionNodes_gen
+#print axioms Gaftools.TieA.ViewSel.pySortedBy_ok
+#print axioms Gaftools.TieA.ViewSel.keys_comparable
+#print axioms Gaftools.TieA.ViewSel.indDict_entries
+#print axioms Gaftools.TieA.ViewSel.search_gen
+#print axioms Gaftools.TieA.ViewSel.loop1_spec
+#print axioms Gaftools.TieA.ViewSel.get_unstable_gen
+#print axioms Gaftools.TieA.ViewSel.run_nodes_gen
+#print axioms Gaftools.TieA.ViewSel.run_regions_reduce
+#print axioms Gaftools.TieA.ViewSel.run_gen
+#print axioms Gaftools.TieA.ViewSel.selecting_gen
